@@ -28,10 +28,10 @@ type Program struct {
 	Roots []*packages.Package
 	Pkgs  map[string]*packages.Package // by PkgPath, includes dependencies
 
-	mu     sync.Mutex
-	funcs  map[string]*Func // cache by key
-	allFns map[*packages.Package][]*Func
-	ssa    *SSAProgram
+	mu        sync.Mutex
+	funcs     map[string]*Func // cache by key
+	allFns    map[*packages.Package][]*Func
+	ssa       *SSAProgram
 	BuildDesc string
 }
 
